@@ -101,6 +101,9 @@ def gen_case(rng, maxdim=14, exact=True):
     style = rng.choice(['linear-noise', 'random', 'linear', 'const-src', 'ramp'])
     g = rng.choice([0.5, 1, 1.5, 2, 0.25, 3])
     o = rng.choice([0, 0, 3, -2, 10])
+    anti = model == 'gain-offset' and rng.random() < 0.25
+    anti_cols = rng.choice([0, 0, W // 2])       # whole block, or only the columns from W // 2 on (so that there is something to in-paint from)
+    ga, oa = -rng.choice([0.5, 1, 2]), vmax
     src = np.zeros((H, W))
     ref = np.zeros((H, W))
     for i in range(H):
@@ -115,6 +118,9 @@ def gen_case(rng, maxdim=14, exact=True):
                 s = -s
             if style == 'random':
                 r = rng.randint(lo, vmax)
+            elif anti and j >= anti_cols:
+                # anti-correlated: clean negative gains with a high R2 (the in-paint rule treats them like low-R2 pixels)
+                r = round(ga * s + oa + rng.randint(-1, 1))
             elif style == 'linear':
                 r = round(g * s + o)
             else:
